@@ -419,7 +419,7 @@ class Monitor:
         rnd = self.in_round
         if rnd is not None and rnd["m"] == log.market_id:
             rnd["fills"].append(log)
-        elif self.driver != "raw":
+        elif getattr(market, "_vsim_tap", False):
             self.viol("C01", "fill_outside_round", {"market": mm.name})
         b = mm.orders.get(log.buy_order_id)
         s = mm.orders.get(log.sell_order_id)
